@@ -1,12 +1,782 @@
-//! stub: property C04 has no correspondence harness yet
+//! C04 — HTTP/1 connections always progress: no lost wake-ups, all bytes flushed.
+//!
+//! A case is a space separated token list (every token can be deleted independently):
+//!   ka=os|off|<s>  D=<s>  T=<s>  wbs=<n>  q=<n>  hc=0|1          configuration
+//!   Q:<headlen>:<n|s<N>|c<n1>.<n2>…>:<hsteps|->:<N|Z|S<steps>|C<steps>>[:<csteps>]   one request
+//!   R<k> RP RE RX RZ     read script (k bytes available / barrier / EOF / reset / silent for ever)
+//!   W<k> W0 WP           write script (accept ≤k / write zero / barrier); exhausted = accept all
+//!   FP FK  SP SK         flush / shutdown script (barrier / ready); exhausted = ready
+//!   E:<letters>          order of external events (r w f s h b c); exhausted = serve waiters
+//! The real `h1::Dispatcher` is polled by the wake-driven executor of `c04_sim.rs`.
+#[path = "../c04_sim.rs"]
+mod sim;
+
+use sim::*;
+
 use super::Prop;
-use crate::common::CaseResult;
+use crate::common::{CaseResult, Ctx, Rng, Tier};
+
+const RULE: &str = "cases = (config, pipelined requests with scripted handlers / response bodies / request-body \
+consumers, adversarial read/write/flush/shutdown readiness scripts, order of external events); the real connection \
+future is polled only when its waker fired; a case is non-trivial if at least one handler was called and at least one \
+idle point (Pending with no wake) occurred; distinct = distinct (case, output) hashes";
+
+fn parse_bsteps(s: &str) -> Option<Vec<BStep>> {
+    let mut v = Vec::new();
+    if s.is_empty() {
+        return Some(v);
+    }
+    for it in s.split('.') {
+        v.push(match it {
+            "p" => BStep::SelfPend,
+            "q" => BStep::ExtPend,
+            "e" => BStep::Err,
+            n => BStep::Chunk(n.parse::<usize>().ok().filter(|n| *n > 0 && *n <= 200_000)?),
+        });
+    }
+    Some(v)
+}
+
+fn parse_req(tok: &str) -> Option<Req> {
+    let p: Vec<&str> = tok.split(':').collect();
+    if p.len() < 5 || p.len() > 6 || p[0] != "Q" {
+        return None;
+    }
+    let head_len = p[1].parse::<usize>().ok()?;
+    let body = if p[2] == "n" {
+        ReqBody::None
+    } else if let Some(n) = p[2].strip_prefix('s') {
+        ReqBody::Sized(n.parse::<usize>().ok().filter(|n| *n > 0 && *n <= 400_000)?)
+    } else if let Some(cs) = p[2].strip_prefix('c') {
+        let mut v = Vec::new();
+        if !cs.is_empty() {
+            for c in cs.split('.') {
+                v.push(c.parse::<usize>().ok().filter(|n| *n > 0 && *n <= 400_000)?);
+            }
+        }
+        ReqBody::Chunked(v)
+    } else {
+        return None;
+    };
+    let hsteps: Vec<u8> = if p[3] == "-" { vec![] } else { p[3].bytes().collect() };
+    if !hsteps.iter().all(|c| b"pqradm".contains(c)) {
+        return None;
+    }
+    let resp = match p[4].as_bytes().first()? {
+        b'N' if p[4].len() == 1 => RespKind::None,
+        b'Z' if p[4].len() == 1 => RespKind::Zero,
+        b'S' => {
+            let st = parse_bsteps(&p[4][1..])?;
+            if !st.iter().any(|s| matches!(s, BStep::Chunk(_))) {
+                return None;
+            }
+            RespKind::Sized(st)
+        }
+        b'C' => RespKind::Stream(parse_bsteps(&p[4][1..])?),
+        _ => return None,
+    };
+    let csteps: Vec<u8> = if p.len() == 6 { p[5].bytes().collect() } else { vec![] };
+    if !csteps.iter().all(|c| b"rd".contains(c)) {
+        return None;
+    }
+    Some(Req { head_len, body, hsteps, resp, csteps })
+}
+
+pub fn parse_case(line: &str) -> Option<Case> {
+    let mut cfg = Cfg { ka: None, disc: 0, head: 0, wbs: 32768, quantum: 1024, half_closed: true };
+    let mut c = Case { cfg: cfg.clone(), reqs: vec![], rops: vec![], wops: vec![], fops: vec![], sops: vec![], ev: vec![] };
+    for tok in line.split_ascii_whitespace() {
+        if let Some(v) = tok.strip_prefix("ka=") {
+            cfg.ka = match v {
+                "os" => None,
+                "off" => Some(0),
+                n => Some(n.parse::<u64>().ok().filter(|n| *n > 0 && *n < 100)?),
+            };
+        } else if let Some(v) = tok.strip_prefix("D=") {
+            cfg.disc = v.parse::<u64>().ok().filter(|n| *n < 100)?;
+        } else if let Some(v) = tok.strip_prefix("T=") {
+            cfg.head = v.parse::<u64>().ok().filter(|n| *n < 100)?;
+        } else if let Some(v) = tok.strip_prefix("wbs=") {
+            cfg.wbs = v.parse::<usize>().ok().filter(|n| *n > 0 && *n <= 1 << 20)?;
+        } else if let Some(v) = tok.strip_prefix("q=") {
+            cfg.quantum = v.parse::<usize>().ok().filter(|n| *n > 0 && *n <= 1024)?;
+        } else if let Some(v) = tok.strip_prefix("hc=") {
+            cfg.half_closed = v == "1";
+        } else if tok.starts_with("Q:") {
+            c.reqs.push(parse_req(tok)?);
+        } else if let Some(v) = tok.strip_prefix("E:") {
+            for ch in v.bytes() {
+                c.ev.push(SRC.iter().position(|s| *s == ch)?);
+            }
+        } else if tok == "RP" {
+            c.rops.push(ROp::Barrier);
+        } else if tok == "RE" {
+            c.rops.push(ROp::Eof);
+        } else if tok == "RX" {
+            c.rops.push(ROp::Reset);
+        } else if tok == "RZ" {
+            c.rops.push(ROp::Silent);
+        } else if tok == "WP" {
+            c.wops.push(WOp::Barrier);
+        } else if tok == "W0" {
+            c.wops.push(WOp::Zero);
+        } else if tok == "FP" {
+            c.fops.push(true);
+        } else if tok == "FK" {
+            c.fops.push(false);
+        } else if tok == "SP" {
+            c.sops.push(true);
+        } else if tok == "SK" {
+            c.sops.push(false);
+        } else if let Some(v) = tok.strip_prefix('R') {
+            c.rops.push(ROp::Bytes(v.parse::<usize>().ok().filter(|n| *n > 0)?));
+        } else if let Some(v) = tok.strip_prefix('W') {
+            c.wops.push(WOp::Accept(v.parse::<usize>().ok().filter(|n| *n > 0)?));
+        } else {
+            return None;
+        }
+    }
+    if c.reqs.len() > 40 {
+        return None;
+    }
+    c.cfg = cfg;
+    Some(c)
+}
+
+// ---------------------------------------------------------------------------------------------
+// independent oracle: parse what the socket accepted as HTTP/1.1 responses
+
+struct ParsedResp {
+    status: u16,
+    body: Vec<u8>,
+    complete: bool,
+    close: bool,
+}
+
+fn find(h: &[u8], n: &[u8], from: usize) -> Option<usize> {
+    if h.len() < n.len() {
+        return None;
+    }
+    (from..=h.len() - n.len()).find(|&i| &h[i..i + n.len()] == n)
+}
+
+/// Parse a byte stream as back-to-back responses. `Err` = not a well-formed (possibly truncated)
+/// response sequence.
+fn parse_responses(acc: &[u8]) -> Result<Vec<ParsedResp>, String> {
+    let mut out = Vec::new();
+    let mut pos = 0;
+    while pos < acc.len() {
+        let Some(he) = find(acc, b"\r\n\r\n", pos) else {
+            // truncated head: must at least look like the start of a status line
+            let pre = &acc[pos..];
+            let want = b"HTTP/1.1 ";
+            let n = pre.len().min(want.len());
+            if pre[..n] != want[..n] {
+                return Err(format!("garbage at offset {}", pos));
+            }
+            out.push(ParsedResp { status: 0, body: vec![], complete: false, close: false });
+            return Ok(out);
+        };
+        let head = std::str::from_utf8(&acc[pos..he]).map_err(|_| "non-utf8 head".to_owned())?;
+        let mut lines = head.split("\r\n");
+        let sl = lines.next().unwrap_or("");
+        if !sl.starts_with("HTTP/1.1 ") || sl.len() < 12 {
+            return Err(format!("bad status line {:?} at offset {}", sl, pos));
+        }
+        let status: u16 = sl[9..12].parse().map_err(|_| format!("bad status {:?}", sl))?;
+        let mut cl: Option<usize> = None;
+        let mut chunked = false;
+        let mut close = false;
+        for l in lines {
+            let (k, v) = l.split_once(':').ok_or_else(|| format!("bad header line {:?}", l))?;
+            let v = v.trim();
+            match k.to_ascii_lowercase().as_str() {
+                "content-length" => cl = Some(v.parse().map_err(|_| "bad content-length".to_owned())?),
+                "transfer-encoding" => chunked = v.eq_ignore_ascii_case("chunked"),
+                "connection" => close = v.eq_ignore_ascii_case("close"),
+                _ => {}
+            }
+        }
+        pos = he + 4;
+        let mut body = Vec::new();
+        let mut complete = true;
+        if status == 100 {
+            out.push(ParsedResp { status, body, complete: true, close: false });
+            continue;
+        }
+        if chunked {
+            loop {
+                let Some(le) = find(acc, b"\r\n", pos) else {
+                    complete = false;
+                    pos = acc.len();
+                    break;
+                };
+                let sz = usize::from_str_radix(std::str::from_utf8(&acc[pos..le]).unwrap_or("?"), 16)
+                    .map_err(|_| format!("bad chunk size at offset {}", pos))?;
+                pos = le + 2;
+                if sz == 0 {
+                    if acc.len() < pos + 2 {
+                        complete = false;
+                        pos = acc.len();
+                    } else if &acc[pos..pos + 2] != b"\r\n" {
+                        return Err(format!("bad chunked terminator at offset {}", pos));
+                    } else {
+                        pos += 2;
+                    }
+                    break;
+                }
+                let take = sz.min(acc.len() - pos);
+                body.extend_from_slice(&acc[pos..pos + take]);
+                pos += take;
+                if take < sz || acc.len() < pos + 2 {
+                    complete = false;
+                    pos = acc.len();
+                    break;
+                }
+                if &acc[pos..pos + 2] != b"\r\n" {
+                    return Err(format!("bad chunk end at offset {}", pos));
+                }
+                pos += 2;
+            }
+        } else if let Some(n) = cl {
+            let take = n.min(acc.len() - pos);
+            body.extend_from_slice(&acc[pos..pos + take]);
+            pos += take;
+            complete = take == n;
+        }
+        out.push(ParsedResp { status, body, complete, close });
+    }
+    Ok(out)
+}
+
+/// blank the value of every `date:` header (wall-clock dependent)
+fn mask_dates(bs: &[u8]) -> Vec<u8> {
+    let mut v = bs.to_vec();
+    let mut pos = 0;
+    while let Some(i) = find(&v, b"\r\ndate: ", pos) {
+        let st = i + 8;
+        let en = find(&v, b"\r\n", st).unwrap_or(v.len());
+        for b in &mut v[st..en] {
+            *b = b'#';
+        }
+        pos = en;
+    }
+    v
+}
+
+/// idle points probed per case (each costs one partial re-run)
+const MAX_PROBED_IDLE: usize = 16;
+
+fn show_outcome(o: &Outcome) -> String {
+    match o {
+        Outcome::DoneOk => "ok".into(),
+        Outcome::DoneErr(k) => format!("err:{}", k),
+        Outcome::Idle => "idle".into(),
+        Outcome::Stalled => "STALLED".into(),
+        Outcome::Spin => "SPIN".into(),
+        Outcome::ProbeStop => "probe-stop".into(),
+    }
+}
+
+fn trace_str(tr: &[String]) -> String {
+    const CAP: usize = 160;
+    if tr.len() <= CAP {
+        tr.join(",")
+    } else {
+        format!("{},+{}", tr[..CAP].join(","), tr.len() - CAP)
+    }
+}
+
+fn run(line: &str) -> CaseResult {
+    let Some(case) = parse_case(line) else {
+        return CaseResult { output: "bad-case".into(), fail: None, nontrivial: false, tags: vec!["bad-case".into()] };
+    };
+    let Some(r) = run_case(&case) else {
+        return CaseResult { output: "bad-case".into(), fail: None, nontrivial: false, tags: vec!["bad-case".into()] };
+    };
+    let log = &r.log;
+    // quiescence at every idle point: re-run up to the k-th idle point and poll once spuriously
+    let n_idle = r.trace.iter().filter(|t| t.starts_with('I')).count();
+    let mut lost: Option<(usize, String)> = None;
+    for k in 0..n_idle.min(MAX_PROBED_IDLE) {
+        if let Some(rk) = run_case_probe(&case, Some(k)) {
+            if let Some(what) = rk.probe {
+                lost = Some((k, what));
+                break;
+            }
+        }
+    }
+    let output = format!(
+        "{}{} lw={} acc={} calls={} sd={} tr={}",
+        show_outcome(&r.outcome),
+        match (&r.outcome, &r.probe) {
+            (Outcome::Idle | Outcome::Stalled, Some(_)) => "/progress-on-spurious-poll",
+            (Outcome::Idle | Outcome::Stalled, None) => "/quiescent",
+            _ => "",
+        },
+        lost.as_ref().map(|l| l.0.to_string()).unwrap_or_else(|| "-".into()),
+        log.accepted.len(),
+        log.called.len(),
+        log.shutdown_done as u8,
+        trace_str(&r.trace)
+    );
+    let mut res = CaseResult::ok(output);
+    let idle_points = r.trace.iter().filter(|t| t.starts_with('I')).count();
+    res.nontrivial = !log.called.is_empty() && idle_points > 0;
+    // ---- tags
+    res.tags.push(format!("out:{}", show_outcome(&r.outcome).split(':').next().unwrap()));
+    res.tags.push(format!("reqs:{}", case.reqs.len().min(5)));
+    if case.wops.iter().any(|w| matches!(w, WOp::Accept(_))) {
+        res.tags.push("partial-write".into());
+    }
+    if case.wops.iter().any(|w| matches!(w, WOp::Barrier)) {
+        res.tags.push("write-pending".into());
+    }
+    if case.fops.iter().any(|b| *b) {
+        res.tags.push("flush-pending".into());
+    }
+    if case.rops.iter().any(|o| matches!(o, ROp::Reset)) {
+        res.tags.push("read-reset".into());
+    }
+    if log.consumed.iter().any(|e| e.4) {
+        res.tags.push("payload-dropped".into());
+    }
+    if case.reqs.iter().any(|q| q.hsteps.contains(&b'm')) {
+        res.tags.push("payload-moved".into());
+    }
+    if r.trace.iter().any(|t| t == "t") {
+        res.tags.push("timer-fired".into());
+    }
+    if r.trace.iter().any(|t| t.starts_with('!')) {
+        res.tags.push("fairness-delivery".into());
+    }
+    if log.wire_read > 131072 {
+        res.tags.push("read-cap".into());
+    }
+
+    // ---- oracle 0: Pending-with-no-wake must mean "nothing to do": a spurious poll is a no-op
+    if let Some((k, what)) = &lost {
+        let sig = if log.consumed.iter().any(|e| e.4) { "lost-wakeup-after-payload-drop" } else { "lost-wakeup" };
+        return res.fail(
+            sig,
+            format!("at idle point {} (task Pending, not woken, waiters {}) a spurious poll makes progress: {}", k, r.trace.iter().filter(|t| t.starts_with('I')).nth(*k).cloned().unwrap_or_default(), what),
+        );
+    }
+    // ---- oracle 1: every accepted byte belongs to exactly one response, in request order
+    let parsed = match parse_responses(&log.accepted) {
+        Ok(p) => p,
+        Err(e) => return res.fail("bytes-garbled", e),
+    };
+    let finals: Vec<&ParsedResp> = parsed.iter().filter(|p| p.status != 100).collect();
+    // responses that carry a scripted body are those of handlers that responded, in order;
+    // error responses (4xx/5xx generated by the dispatcher) have empty bodies
+    let mut it = log.responded.iter();
+    for (k, p) in finals.iter().enumerate() {
+        let last = k + 1 == finals.len();
+        if !p.complete && !last {
+            return res.fail("bytes-garbled", format!("response {} truncated but followed by more bytes", k));
+        }
+        if p.status == 200 {
+            let Some(&rid) = it.next() else {
+                return res.fail("bytes-duplicated", format!("more 200 responses on the wire than handlers responded ({})", log.responded.len()));
+            };
+            let want: Vec<u8> = {
+                let pulled = log.pulled.iter().find(|e| e.0 == rid).map(|e| e.1).unwrap_or(0);
+                (0..pulled).map(|i| body_byte(rid, i)).collect()
+            };
+            if !want.starts_with(&p.body) {
+                return res.fail("bytes-out-of-order", format!("response to request {} carries bytes that are not the next produced bytes", rid));
+            }
+            if p.complete && p.body.len() != want.len() && !matches!(case.reqs[rid].resp, RespKind::None) {
+                return res.fail("bytes-lost", format!("response to request {} complete on the wire with {} of {} produced body bytes", rid, p.body.len(), want.len()));
+            }
+        } else if p.status != 0 && !p.body.is_empty() {
+            return res.fail("bytes-garbled", format!("status {} with a body", p.status));
+        }
+    }
+    // ---- oracle 2: completion ⇒ everything that was produced has been flushed
+    match &r.outcome {
+        Outcome::DoneOk => {
+            // what was produced = the head of every response a handler returned + every body
+            // chunk the dispatcher pulled (+ the terminator if it pulled the end)
+            let n200 = finals.iter().filter(|p| p.status == 200).count();
+            if n200 != log.responded.len() {
+                return res.fail("unflushed-at-done", format!("{} handlers responded, {} response heads on the wire at Ok", log.responded.len(), n200));
+            }
+            for e in &log.pulled {
+                let rid = e.0;
+                let idx = log.responded.iter().position(|r| *r == rid).unwrap();
+                let p = finals.iter().filter(|p| p.status == 200).nth(idx).unwrap();
+                if p.status == 0 {
+                    return res.fail("unflushed-at-done", format!("request {}: response head truncated on the wire at Ok", rid));
+                }
+                if matches!(case.reqs[rid].resp, RespKind::None) {
+                    continue;
+                }
+                if p.body.len() != e.1 {
+                    return res.fail("unflushed-at-done", format!("request {}: {} body bytes produced, {} on the wire at Ok", rid, e.1, p.body.len()));
+                }
+                if e.2 && !p.complete {
+                    return res.fail("unflushed-at-done", format!("request {}: body end produced but the response is not terminated on the wire at Ok", rid));
+                }
+            }
+        }
+        // ---- oracle 3: no stall while work is possible / termination
+        Outcome::Stalled => {
+            let sig = if log.consumed.iter().any(|e| e.4) { "stall-after-payload-drop" } else { "stall" };
+            return res.fail(
+                sig,
+                format!(
+                    "connection task Pending, not woken, no external event left, 20 s of virtual time passed; wire {}/{} read, eof_seen={}, waiters=[{}], responded={:?}",
+                    log.wire_read, r.wire_len, log.read_eof_seen, r.leftover_waiters, log.responded
+                ),
+            );
+        }
+        Outcome::Spin => {
+            return res.fail("livelock", format!("more than 20000 polls; waiters=[{}]", r.leftover_waiters));
+        }
+        Outcome::Idle => {
+            if let Some(what) = &r.probe {
+                let sig = if log.consumed.iter().any(|e| e.4) { "lost-wakeup-after-payload-drop" } else { "lost-wakeup" };
+                return res.fail(
+                    sig,
+                    format!(
+                        "connection task went to sleep (waiting only for a silent peer) although a spurious poll makes progress: {}; wire {}/{} read, responded={:?}",
+                        what, log.wire_read, r.wire_len, log.responded
+                    ),
+                );
+            }
+        }
+        Outcome::DoneErr(_) | Outcome::ProbeStop => {}
+    }
+    // ---- oracle 4 (metamorphic): the write/flush/shutdown schedule must not change the bytes
+    if !case.wops.is_empty() || !case.fops.is_empty() || !case.sops.is_empty() {
+        if matches!(r.outcome, Outcome::DoneOk) && meta_class(&case) {
+            let mut benign = case.clone();
+            benign.wops.clear();
+            benign.fops.clear();
+            benign.sops.clear();
+            if let Some(r2) = run_case(&benign) {
+                let (a1, a2) = (mask_dates(&log.accepted), mask_dates(&r2.log.accepted));
+                if matches!(r2.outcome, Outcome::DoneOk) && a1 != a2 {
+                    let at = a2.iter().zip(&a1).position(|(a, b)| a != b).unwrap_or(a2.len().min(a1.len()));
+                    return res.fail(
+                        "bytes-differ-from-benign-socket",
+                        format!("accepted {} bytes, reference run with an always-ready socket {} bytes; first difference at {}", log.accepted.len(), r2.log.accepted.len(), at),
+                    );
+                }
+            }
+        }
+    }
+    res
+}
+
+#[allow(dead_code)]
+/// the response at wire position k belongs to a body that raised an error (then truncation is expected)
+fn body_errored(case: &Case, log: &Log, k: usize, finals: &[&ParsedResp]) -> bool {
+    let idx200 = finals[..=k].iter().filter(|p| p.status == 200).count();
+    if finals[k].status != 200 || idx200 == 0 {
+        return false;
+    }
+    let Some(&rid) = log.responded.get(idx200 - 1) else { return false };
+    match &case.reqs[rid].resp {
+        RespKind::Sized(st) | RespKind::Stream(st) => st.contains(&BStep::Err),
+        _ => false,
+    }
+}
+
+/// class in which the accepted bytes are a function of the inputs alone (not of the write
+/// schedule): at most 12 requests (a full pipeline queue stops decoding, and what is still
+/// undecoded when the peer half-closes is dropped), no request bodies (the close-for-unread-payload decision depends on timing), half
+/// close allowed, no reset / silence / write-zero, no timers, no body errors
+fn meta_class(c: &Case) -> bool {
+    c.cfg.half_closed
+        && c.reqs.len() <= 12
+        && c.cfg.ka.is_none()
+        && c.cfg.disc == 0
+        && c.cfg.head == 0
+        && c.reqs.iter().all(|q| {
+            matches!(q.body, ReqBody::None)
+                && match &q.resp {
+                    RespKind::Sized(st) | RespKind::Stream(st) => !st.contains(&BStep::Err),
+                    _ => true,
+                }
+        })
+        && !c.rops.iter().any(|o| matches!(o, ROp::Reset | ROp::Silent))
+        && !c.wops.iter().any(|o| matches!(o, WOp::Zero))
+}
+
+// ---------------------------------------------------------------------------------------------
+// generator
+
+fn gen_bsteps(rng: &mut Rng, big: bool) -> String {
+    let n = rng.range(1, 5);
+    let mut v: Vec<String> = Vec::new();
+    for _ in 0..n {
+        for _ in 0..rng.below(3) {
+            v.push(if rng.chance(1, 2) { "p".into() } else { "q".into() });
+        }
+        let sz = if big && rng.chance(1, 3) { rng.range(2000, 40000) } else { rng.range(1, 300) };
+        v.push(sz.to_string());
+    }
+    for _ in 0..rng.below(2) {
+        v.push(if rng.chance(1, 2) { "p".into() } else { "q".into() });
+    }
+    v.join(".")
+}
+
+fn gen_req(rng: &mut Rng, i: usize, bodies: bool, big: bool) -> (String, usize) {
+    let body = if !bodies || rng.chance(1, 2) {
+        ReqBody::None
+    } else if rng.chance(1, 2) {
+        ReqBody::Sized(if big && rng.chance(1, 2) { rng.range(30000, 70000) } else { rng.range(1, 3000) })
+    } else {
+        let n = rng.below(4);
+        ReqBody::Chunked((0..n).map(|_| if big && rng.chance(1, 3) { rng.range(20000, 50000) } else { rng.range(1, 2000) }).collect())
+    };
+    let min = min_head_len(i, &body);
+    let hl = min + if rng.chance(1, 6) { rng.range(500, 3000) } else { rng.below(40) };
+    let bs = match &body {
+        ReqBody::None => "n".to_owned(),
+        ReqBody::Sized(n) => format!("s{}", n),
+        ReqBody::Chunked(v) => format!("c{}", v.iter().map(|n| n.to_string()).collect::<Vec<_>>().join(".")),
+    };
+    let mut hs = String::new();
+    let has_body = !matches!(body, ReqBody::None);
+    for _ in 0..rng.below(4) {
+        let c = match rng.below(if has_body { 8 } else { 2 }) {
+            0 => 'p',
+            1 => 'q',
+            2 | 3 => 'r',
+            4 | 5 => 'a',
+            6 => 'd',
+            _ => 'p',
+        };
+        hs.push(c);
+    }
+    if hs.is_empty() {
+        hs.push('-');
+    }
+    let resp = match rng.below(8) {
+        0 => "N".to_owned(),
+        1 => "Z".to_owned(),
+        2..=4 => format!("S{}", gen_bsteps(rng, big)),
+        _ => format!("C{}", gen_bsteps(rng, big)),
+    };
+    let wire_len = hl
+        + match &body {
+            ReqBody::None => 0,
+            ReqBody::Sized(n) => *n,
+            ReqBody::Chunked(v) => v.iter().map(|n| hexlen(*n) + 2 + n + 2).sum::<usize>() + 5,
+        };
+    (format!("Q:{}:{}:{}:{}", hl, bs, hs, resp), wire_len)
+}
+
+fn gen_case(rng: &mut Rng, flavour: usize) -> String {
+    let mut t: Vec<String> = Vec::new();
+    let bodies = flavour >= 1;
+    let big = flavour == 2;
+    let timed = flavour == 3;
+    if timed {
+        t.push(format!("ka={}", rng.pick(&["os", "5", "off", "5"])));
+        if rng.chance(1, 2) {
+            t.push("D=1".into());
+        }
+        if rng.chance(1, 2) {
+            t.push("T=3".into());
+        }
+    } else if rng.chance(1, 5) {
+        t.push("ka=off".into());
+    }
+    if rng.chance(1, 3) {
+        t.push(format!("wbs={}", rng.pick(&[1usize, 64, 200, 1000, 5000])));
+    }
+    if rng.chance(1, 4) {
+        t.push(format!("q={}", rng.pick(&[1usize, 7, 100, 1000])));
+    }
+    if rng.chance(1, 6) {
+        t.push("hc=0".into());
+    }
+    let nreq = if rng.chance(1, 10) { rng.range(4, 20) } else { rng.range(1, 3) };
+    let mut wire_total = 0;
+    for i in 0..nreq {
+        let (q, wl) = gen_req(rng, i, bodies || timed, big);
+        wire_total += wl;
+        t.push(q);
+    }
+    // read script: cut the wire into segments with barriers in between, then EOF / reset / silence
+    let mut left = wire_total;
+    let mut ops: Vec<String> = Vec::new();
+    let cuts = rng.below(6);
+    for _ in 0..cuts {
+        if left == 0 {
+            break;
+        }
+        let k = if rng.chance(1, 3) { rng.range(1, left.min(30)) } else { rng.range(1, left) };
+        ops.push(format!("R{}", k));
+        left -= k;
+        for _ in 0..rng.range(1, 2) {
+            ops.push("RP".into());
+        }
+    }
+    if left > 0 && !rng.chance(1, 12) {
+        ops.push(format!("R{}", left));
+    }
+    for _ in 0..rng.below(3) {
+        ops.push("RP".into());
+    }
+    match rng.below(if timed { 6 } else { 14 }) {
+        0 => ops.push("RX".into()),
+        1 | 2 if timed => ops.push("RZ".into()),
+        _ => ops.push("RE".into()),
+    }
+    t.extend(ops);
+    // write script
+    for _ in 0..rng.below(10) {
+        t.push(match rng.below(10) {
+            0..=2 => "WP".into(),
+            3 if rng.chance(1, 10) => "W0".into(),
+            _ => format!("W{}", if rng.chance(1, 2) { rng.range(1, 40) } else { rng.range(1, 3000) }),
+        });
+    }
+    for _ in 0..rng.below(4) {
+        t.push(if rng.chance(2, 3) { "FP".into() } else { "FK".into() });
+    }
+    for _ in 0..rng.below(3) {
+        t.push("SP".into());
+    }
+    // event order
+    let n = rng.below(14);
+    if n > 0 {
+        let letters = if bodies { "rrrwwfshhbb" } else { "rrrwwfshhbb" };
+        let s: String = (0..n).map(|_| letters.as_bytes()[rng.below(letters.len())] as char).collect();
+        t.push(format!("E:{}", s));
+    }
+    t.join(" ")
+}
+
+/// back-pressure flavour: one large request body (the 32 KiB payload pause and the 128 KiB read
+/// cap are reached), a handler that waits / reads a little / drops / moves the payload, optionally
+/// a pipelined follow-up request, a peer that goes on sending, half-closes, or goes silent
+fn gen_backpressure(rng: &mut Rng) -> String {
+    let mut t: Vec<String> = Vec::new();
+    if rng.chance(1, 2) {
+        t.push("ka=5".into());
+    }
+    if rng.chance(1, 4) {
+        t.push("D=1".into());
+    }
+    if rng.chance(1, 5) {
+        t.push(format!("q={}", rng.pick(&[100usize, 1000, 1024])));
+    }
+    let total = *rng.pick(&[34000usize, 40000, 70000, 140000, 170000, 270000, 330000]);
+    let body = if rng.chance(3, 4) {
+        // chunked: 1..4 chunks summing to `total`
+        let n = rng.range(1, 4);
+        let mut left = total;
+        let mut cs = Vec::new();
+        for i in 0..n {
+            let c = if i + 1 == n { left } else { rng.range(1, left.saturating_sub(n - i).max(1)) };
+            if c == 0 {
+                break;
+            }
+            cs.push(c);
+            left -= c;
+            if left == 0 {
+                break;
+            }
+        }
+        ReqBody::Chunked(cs)
+    } else {
+        ReqBody::Sized(total)
+    };
+    let bs = match &body {
+        ReqBody::Sized(n) => format!("s{}", n),
+        ReqBody::Chunked(v) => format!("c{}", v.iter().map(|n| n.to_string()).collect::<Vec<_>>().join(".")),
+        ReqBody::None => "n".into(),
+    };
+    let hs = *rng.pick(&["q", "qd", "qdq", "pd", "qr", "qrd", "qrq", "qa", "dq", "qq", "qrrd", "pqd", "qm", "mq", "qmq", "a", "d", "-"]);
+    let cs = if hs.contains('m') { *rng.pick(&["d", "rd", "rrd", "r", "", "rrrrd", "rrrrrrrr", "rrrrrrrrrrrrrrrrd"]) } else { "" };
+    let resp = match rng.below(5) {
+        0 => "Z".to_owned(),
+        1 => "N".to_owned(),
+        2 => format!("C{}", gen_bsteps(rng, false)),
+        _ => format!("S{}", gen_bsteps(rng, false)),
+    };
+    let hl = min_head_len(0, &body) + rng.below(30);
+    let mut q = format!("Q:{}:{}:{}:{}", hl, bs, hs, resp);
+    if !cs.is_empty() || hs.contains('m') {
+        q.push(':');
+        q.push_str(cs);
+    }
+    t.push(q);
+    let mut wire = hl
+        + match &body {
+            ReqBody::Sized(n) => *n,
+            ReqBody::Chunked(v) => v.iter().map(|n| hexlen(*n) + 2 + n + 2).sum::<usize>() + 5,
+            ReqBody::None => 0,
+        };
+    if rng.chance(1, 3) {
+        let (q2, wl) = gen_req(rng, 1, false, false);
+        t.push(q2);
+        wire += wl;
+    }
+    // read script
+    let mut left = wire;
+    for _ in 0..rng.below(4) {
+        if left == 0 {
+            break;
+        }
+        let k = rng.range(1, left);
+        t.push(format!("R{}", k));
+        left -= k;
+        t.push("RP".into());
+    }
+    if left > 0 && !rng.chance(1, 10) {
+        t.push(format!("R{}", left));
+    }
+    match rng.below(6) {
+        0 | 1 => t.push("RZ".into()),
+        2 => {
+            t.push("RP".into());
+            t.push("RE".into())
+        }
+        _ => {}
+    }
+    for _ in 0..rng.below(4) {
+        t.push(match rng.below(4) {
+            0 => "WP".into(),
+            1 => "FP".into(),
+            _ => format!("W{}", rng.range(1, 200)),
+        });
+    }
+    let n = rng.below(8);
+    if n > 0 {
+        let letters = if hs.contains('m') { "rrhccccccb" } else { "rrrhhhbw" };
+        let e: String = (0..n).map(|_| letters.as_bytes()[rng.below(letters.len())] as char).collect();
+        t.push(format!("E:{}", e));
+    }
+    t.join(" ")
+}
+
+fn gen(ctx: &Ctx) -> Vec<String> {
+    let mut rng = Rng::new(ctx.seed);
+    let mut cases = Vec::new();
+    let n = ctx.budget(2000);
+    for i in 0..n {
+        let flavour = match i % 10 {
+            0..=2 => 0,
+            3..=5 => 1,
+            6 => 2,
+            7 => 3,
+            _ => 4,
+        };
+        cases.push(if flavour == 4 { gen_backpressure(&mut rng) } else { gen_case(&mut rng, flavour) });
+    }
+    let _ = Tier::Quick;
+    cases
+}
 
 pub fn prop() -> Prop {
-    Prop {
-        rule: "unimplemented",
-        parallel: false,
-        gen: Box::new(|_| Vec::new()),
-        run: Box::new(|_| CaseResult::ok("unimplemented".to_owned())),
-    }
+    Prop { rule: RULE, parallel: true, gen: Box::new(gen), run: Box::new(run) }
 }
